@@ -25,6 +25,8 @@ pub enum Case {
     HostileHeader { mode_pass: bool, len_field: u32, flag: u32, body: usize, keep_records: usize },
     /// a complete authentic stream followed by `tail` further bytes
     HostileTail { mode_pass: bool, tail: usize },
+    /// a stream sealed by a non-conforming (but key-holding) writer: valid tags, flag values other than 0 and 1
+    ForgedFlag { flag: u32, at: u8, mode_pass: bool },
 }
 
 fn authentic_key_file() -> Vec<u8> { let (s, r) = (kx::ident(9, "S"), kx::ident(9, "R")); kx::key_encrypt_chunked(&gen::bytes_from(9, 300), &[100, 100, 100], &s, &r.pk, &gen::key32(9, "e"), &gen::key32(9, "p")).unwrap() }
@@ -82,6 +84,14 @@ pub fn check(c: &Case) -> CheckResult {
             ensure!(largest <= hlargest + 65536, "a hostile length field ({}) caused a single allocation of {} bytes (honest maximum {})", len_field, largest, hlargest);
             ensure!(pulled <= cut + 16 + 65536 + 16, "after the last verified record {} further bytes were pulled from the source (bound {})", pulled - cut, 16 + 65536 + 16);
             ok(true, format!("hostile-len/{}", if *len_field > 65536 { ">cs" } else { "<=cs" }))
+        }
+        Case::ForgedFlag { flag, at, mode_pass } => {
+            let (key, aad): ([u8; 32], Vec<u8>) = (gen::key32(6, "ff"), if *mode_pass { kspec::MAGIC_PASS.to_vec() } else { vec![] });
+            let chunks: [&[u8]; 3] = [b"first", b"second chunk", b"third"]; let mut data = Vec::new();
+            for (i, ch) in chunks.iter().enumerate() { let fl = if i == *at as usize % 3 { *flag } else if i == 2 { 1 } else { 0 }; data.extend_from_slice(&kspec::seal_record(&key, &aad, i as u64, i as u64, fl, ch).to_bytes()); }
+            // what a decryptor does with such a flag is not specified; that it returns is
+            let (res, _sh) = kx::dec_chunks(&data, &RSched::dribble(5), &WSched::all(), None, &key, &aad, 65536);
+            ok(true, format!("forged-flag/{}", if res.is_ok() { "accepted" } else { "rejected" }))
         }
         Case::HostileTail { mode_pass, tail } => {
             let (key, aad): ([u8; 32], Vec<u8>) = (gen::key32(4, "ht"), if *mode_pass { kspec::MAGIC_PASS.to_vec() } else { vec![] });
@@ -184,6 +194,7 @@ pub fn run(ctx: &Ctx) {
     let mut ins = Vec::new();
     for base in [&vsk, &vpk] { let cs: Vec<char> = base.chars().collect(); for pos in 0..=cs.len() { for ch in [' ', '\n', '\t', '\r', '=', '-', 'A'] { let mut v = cs.clone(); v.insert(pos, ch); ins.push(Case::KeyString { s: v.into_iter().collect() }); } } }
     ctx.sse_vec("key_string_insertions", "a valid locked key (112 chars) and a valid public key (48 chars) with each of 7 characters inserted at every position", ins, check);
+    ctx.sse_vec("authentic_records_with_other_flags", "3-record streams with valid tags whose flag at position 0/1/2 is one of 11 values outside {0,1}, both AAD modes", [2u32, 3, 255, 256, 65535, 1 << 16, 1 << 24, 1 << 31, u32::MAX - 1, u32::MAX, 0x0100_0000].iter().flat_map(|&flag| (0u8..3).flat_map(move |at| [false, true].map(move |mode_pass| Case::ForgedFlag { flag, at, mode_pass }))).collect(), check);
     ctx.sse_vec("pass_header_kdf_cost", "forged password-mode headers: number of scrypt-sized allocations and peak heap equal to the honest file's", [0u32, 70_000, u32::MAX].iter().flat_map(|&lf| [0usize, 100].map(move |b| PassCost { len_field: lf, salt: lf as u64 + b as u64, body: b })).collect(), check_pass_cost);
     let seed = ctx.seed;
     ctx.pbt("mutants_no_panic", ctx.n(40_000, 1_000_000), || super::c03::strat(PoolSel::KeySmall, seed, 6, 100), check_mutant);
@@ -196,6 +207,10 @@ pub fn run(ctx: &Ctx) {
         (0usize..300, any::<u64>(), 0usize..20).prop_map(|(len, s, aad_len)| Case::Aead { len, fill: Fill::Random(s), aad_len }),
         prop_oneof!["[A-Za-z0-9+/=]{0,130}", "\\PC{0,50}", "[A-Za-z0-9+/]{48}", "[A-Za-z0-9+/]{112}"].prop_map(|s| Case::KeyString { s }),
     ], check);
+    { let pk = [kspec::encode_public_key(&kspec::x25519_base(&[1u8; 32])), kspec::encode_public_key(&kspec::x25519_base(&[2u8; 32]))]; let mut uni = Vec::new();
+      for ch in ['é', '€', '😀'] { for k in 0..4usize { for n in 1..=70usize { let name = format!("{}{}", "x".repeat(k), ch.to_string().repeat(n)); if name.len() > 150 { break; }
+        uni.push(Text { t: format!("[Key]\nName = {}\nPublicKey = {}\n\n[Key]\nName = {}\nPublicKey = {}\n", name, pk[0], name, pk[1]) }); uni.push(Text { t: format!("[Key]\nName = {}\nPublicKey = {}\n", name, pk[0]) }); } } }
+      ctx.sse_vec("keyring_unicode_names", "keyrings whose names are multi-byte characters at every byte alignment and length up to 150 bytes (valid, over-long, duplicated)", uni, |t: &Text| { let _ = Keyring::new(&t.t); ok(true, "keyring-unicode") }); }
     ctx.pbt("keyring_texts", ctx.n(30_000, 800_000), || prop_oneof!["\\PC{0,300}", "(\\[Key\\]|Name|PublicKey|PrivateKey|=| |\t|\n|\r\n|#|[a-zA-Z0-9+/]{1,48}|[a-zA-Z0-9+/]{112}){0,40}", "(\\[Key\\]\nName = [a-z]{0,3}\nPublicKey = [A-Za-z0-9+/=]{40,52}\n){1,3}"].prop_map(|t| Text { t }), |t: &Text| { let _ = Keyring::new(&t.t); ok(t.t.contains("[Key]"), "keyring-text") });
     ctx.shrink_iters.store(200, std::sync::atomic::Ordering::Relaxed);
     let maxlen = 3u32; let total = (0..=maxlen).map(|l| VOCAB.pow(l)).sum::<usize>() * 2;
